@@ -607,3 +607,130 @@ class MainUnits(MainConfig):
                ('Qb', {'C10'}, v('Qb') == v('Ib') / v('f_rev')),
                ('f_rev', {'C10'}, v('f_rev') == o(cx, 'f0'))]
         return out
+
+
+class MainMaps(Contract):
+    """main(): construction of the transport maps (RF kick, drift, damping/diffusion), from the declaration of `drfm` up to the
+    impedances.  Every constructor is called within its contract's precondition for every configuration of the documented domain
+    (the domain is stated as the `requires` of this slice and listed in the evidence), and the branch that builds a
+    FokkerPlanckMap is taken exactly when the damping decrement is positive (otherwise the identity)."""
+    name = 'main'
+    tu = 'src/main.cpp'
+    tu_filter = 'main'
+    aux_tus = [('src/main.cpp', 'vfps::')]
+    params = ['argc', 'argv']
+    tags = {'C03', 'C04', 'C17', 'C19', 'C08'}
+    ghosts = {'k': 'int', 'n': 'int', 'x': 'int', 'y': 'int', 'e': 'int', 'g': 'int', 'j': 'int', 'r0': 'int', 'r1': 'int', 'r2': 'int', 'r3': 'int'}
+    slice_from = 'drfm'
+    slice_until = 'wake_impedance'
+    slice_externals = {'opts': 'vfps::ProgramOptions'}
+    canary = True
+    no_bounded_fallback = True
+
+    def slice_setup(self, ex, st):
+        from .common import PS_NX, PS_NY, PS_NB, PS_NXY, PS_NXYB, declare_ps, ps_globals
+        from .sm import Ruler_valid
+        a = ex.args0
+        cx = Ctx(ex, st, st, a)
+        nx, ny, nb = ps_globals(cx)
+        for g_ in ('grid_t1', 'grid_t2', 'grid_t3'):
+            if g_ not in a or not isinstance(a[g_], ObjRef):
+                raise ExtractionError(f'main: {g_} not found before the maps are built')
+        # what the start-distribution slice establishes (MainStartDistribution): three grids of GridSize cells with valid axes
+        st.assume(And(PS_static(cx), nx == a['ps_bins'].t, *[And(declare_ps(cx, a[g_].name), Ruler_valid(cx, a[g_].name + '._axis[0]', nx), Ruler_valid(cx, a[g_].name + '._axis[1]', ny)) for g_ in ('grid_t1', 'grid_t2', 'grid_t3')]))
+        # documented domain of the options that reach the constructors unvalidated
+        it = a['interpolationtype']
+        st.assume(And(real_or_int(it) >= 1, real_or_int(it) <= 4))
+        st.assume(And(a['f_RF'].t > 0, a['revolutionpart'].t > 0, models.uf_const('PI') > 3, nx * nb * 4 < 2 ** 32))
+        for g_ in ('grid_t1', 'grid_t2', 'grid_t3'):
+            st.assume(cx.rf(a[g_].name + '._axis[0]._scale[Meter]') > 0)
+        for c_ in ('DynamicRFKickMap', 'RFKickMap', 'DriftMap', 'FokkerPlanckMap', 'Identity'):
+            st.scal['ghost.built.' + c_] = IntV(I(0), parse_type_str('int'))
+        # alpha is built with exactly three entries (alpha0, alpha1, alpha2): fact of the declaration, checked on the AST
+        from vf.unit import _walk
+        n3 = [len(x.get('inner', [])) for d in _walk(ex.fn) if d.get('kind') == 'VarDecl' and d.get('name') == 'alpha' for x in _walk(d) if x.get('kind') == 'InitListExpr']
+        if 'alpha' in a and isinstance(a['alpha'], ObjRef):
+            if not n3 or max(n3) != 3:
+                raise ExtractionError('main: alpha is no longer built from three terms')
+            st.assume(st.len_of(a['alpha'].name) == 3)
+        dt_ = a.get('derivationtype')
+        if dt_ is not None:
+            st.assume(Implies(real_or_int(dt_) == 4, nx >= 4))
+        ft_ = a.get('fptype')
+        if ft_ is not None:
+            st.assume(And(real_or_int(ft_) >= 0, real_or_int(ft_) <= 3))
+
+    def assigns(self, cx):
+        return [('s', 'ghost.*'), ('s', 'arg:*'), ('r', 'heap:*'), ('len', 'heap:*'), ('s', 'heap:*'), ('r', 'local:*'), ('len', 'local:*')]
+
+    @property
+    def calls(self):
+        from .sm import RFKickMapLinearCtor, RFKickMapSinCtor, DriftMapCtor, FokkerPlanckCtor
+        from .dynrf import DynRFLinearCtor, DynRFSinCtor
+        noop = lambda ex, n, st, objn, argn, this_override=None: VoidV()
+        strv = lambda ex, n, st, objn, argn, this_override=None: Opaque('string')
+        INST = lambda cx: [{'x': cx.ghost_of('x'), 'y': cx.ghost_of('y'), 'e': cx.ghost_of('e'), 'g': cx.ghost_of('g'), 'k': cx.ghost_of('k'), 'n': cx.ghost_of('n'), 'j': cx.ghost_of('j'),
+                            'r0': cx.ghost_of('r0'), 'r1': cx.ghost_of('r1'), 'r2': cx.ghost_of('r2'), 'r3': cx.ghost_of('r3')}]
+        counter = [0]
+
+        class New(Use):
+            def __init__(self, c, cls, region=None):
+                Use.__init__(self, c, inst=INST)
+                self.cls = cls
+                self.region = region or cls
+
+            def __call__(self, ex, n, st, objn, argn, this_override=None):
+                nm = f'heap:{self.region}'       # at most one object of each role (RF map, drift map, ...) is built on any path
+                Use.__call__(self, ex, n, st, None, argn, this_override=nm)
+                st.scal['ghost.built.' + self.cls] = IntV(st.scal['ghost.built.' + self.cls].t + 1, parse_type_str('int'))
+                ex.logw(('s', 'ghost.built.' + self.cls))
+                return ObjRef(nm, 'vfps::' + self.cls, null=z3.BoolVal(False))
+
+        def reset(ex, n, st, objn, argn, this_override=None):
+            v = ex.ev(argn[0], st) if argn else None
+            d = objn
+            while d.get('kind') in ('ImplicitCastExpr', 'ParenExpr'):
+                d = d['inner'][0]
+            vid = (d.get('referencedDecl') or {}).get('id')
+            if vid is None or not isinstance(v, ObjRef):
+                raise ExtractionError('main: reset(...) of a map pointer with something that is not a new map')
+            st.env[vid] = ObjRef(v.name, v.cls, null=z3.BoolVal(False))
+            ex.logw(('v', vid))
+            return VoidV()
+
+        def assign_ptr(ex, n, st, objn, argn, this_override=None):
+            v = ex.ev(argn[0], st) if parse_type(argn[0]['type']).kind != 'class' else ex.ev_obj(argn[0], st)
+            d = objn
+            while d.get('kind') in ('ImplicitCastExpr', 'ParenExpr'):
+                d = d['inner'][0]
+            vid = (d.get('referencedDecl') or {}).get('id')
+            if isinstance(v, ObjRef) and vid is not None:
+                st.env[vid] = v
+                ex.logw(('v', vid))
+                return VoidV()
+            if isinstance(v, Opaque) and vid is not None:
+                return VoidV()
+            raise ExtractionError(f'main: assignment to a map pointer from {v}')
+        fresh_real = lambda ex, n, st, objn, argn, this_override=None: RealV(z3.Real(f'opt!{ex.curline}!{id(n) % 99991}'), parse_type_str('double'))
+        return {'ctor:vfps::DynamicRFKickMap/15': New(DynRFLinearCtor(), 'DynamicRFKickMap', 'rfmap'), 'ctor:vfps::DynamicRFKickMap/16': New(DynRFSinCtor(), 'DynamicRFKickMap', 'rfmap'),
+                'ctor:vfps::RFKickMap/7': New(RFKickMapLinearCtor(), 'RFKickMap', 'rfmap'), 'ctor:vfps::RFKickMap/9': New(RFKickMapSinCtor(), 'RFKickMap', 'rfmap'),
+                'make_unique': New(DriftMapCtor(), 'DriftMap'),
+                'ctor:vfps::FokkerPlanckMap': New(FokkerPlanckCtor(), 'FokkerPlanckMap', 'fpmap'),
+                'ctor:vfps::Identity': lambda ex, n, st, objn, argn, this_override=None: (st.scal.__setitem__('ghost.built.Identity', IntV(st.scal['ghost.built.Identity'].t + 1, parse_type_str('int'))), ex.logw(('s', 'ghost.built.Identity')), ObjRef('heap:fpmap', 'vfps::Identity', null=z3.BoolVal(False)))[2],
+                'reset': reset, 'operator=': assign_ptr, 'printText': noop, 'operator+': strv, 'operator<<': strv, 'str': strv,
+                'getRFPhaseSpread': fresh_real, 'getRFPhaseModFrequency': fresh_real, 'getRFPhaseModAmplitude': fresh_real}
+
+    def ensures(self, cx):
+        b = lambda c: (cx.st.scal.get('ghost.built.' + c).t if cx.st.scal.get('ghost.built.' + c) is not None else I(0))
+        e1 = cx.v('e1')
+        return [('fokker_planck_iff_damping', {'C04'}, And(Implies(e1 > 0, And(b('FokkerPlanckMap') == 1, b('Identity') == 0)), Implies(Not(e1 > 0), And(b('Identity') == 1, b('FokkerPlanckMap') == 0)))),
+                ('one_rf_map_one_drift_map', {'C03', 'C19'}, And(b('DriftMap') == 1, b('RFKickMap') + b('DynamicRFKickMap') == 1))]
+
+    @property
+    def loops(self):
+        # trailing zero momentum-compaction terms are dropped (at most the three entries alpha was built with); the print loop
+        return {'while#0': LoopSpec(unroll=4), 'n#0': LoopSpec(inv=lambda cx: [('range', cx.v('n') >= 0)])}
+
+
+def real_or_int(v):
+    return v.t
